@@ -104,17 +104,33 @@ def iter_atomic_values(xsd_type: XsdTypeProtocol) -> Iterator[aliases.AtomicType
             yield atomic_values[root_type.name]
         elif hasattr(root_type, 'member_types'):
             for member_type in root_type.member_types:
-                yield from _iter_values(member_type, depth + 1)
+                yield from _iter_values(nearest_builtin_type(member_type), depth + 1)
+
+    def nearest_builtin_type(base_type: XsdTypeProtocol) -> XsdTypeProtocol:
+        # The typed value has the nearest built-in base type (e.g. xs:integer for a
+        # restriction of xs:integer), not the primitive root type (xs:decimal).
+        for _ in range(15):
+            if base_type.name in atomic_values or hasattr(base_type, 'member_types'):
+                return base_type
+            item_type = getattr(base_type, 'item_type', None)
+            if item_type is not None:
+                base_type = item_type
+                continue
+            parent_type = getattr(base_type, 'base_type', None)
+            if parent_type is None or parent_type is base_type:
+                break
+            base_type = parent_type
+        return base_type.root_type
 
     atomic_values = _ATOMIC_VALUES[xsd_type.xsd_version]
     if xsd_type.name in atomic_values:
         yield atomic_values[xsd_type.name]
     elif xsd_type.is_simple() or (simple_type := xsd_type.simple_type) is None:
-        yield from _iter_values(xsd_type.root_type, 1)
+        yield from _iter_values(nearest_builtin_type(xsd_type), 1)
     elif simple_type.name in atomic_values:
         yield atomic_values[simple_type.name]
     else:
-        yield from _iter_values(simple_type.root_type, 1)
+        yield from _iter_values(nearest_builtin_type(simple_type), 1)
 
 
 def get_atomic_sequence(xsd_type: Optional[XsdTypeProtocol],
